@@ -444,6 +444,51 @@ def run(ctx):
                 res.violations.append({"what": "through the object cache the result of kind %s is read back as %s in the writing process; "
                                                "the store holds %s" % (name, repr(got)[:80], repr(want)[:80]),
                                        "input": {"value": name, "store": "LRUCacheStore(LocalFileStore)", "modified_after_store": True}, "kf": None})
+        # a blob written by a user codec is refused where that codec is not registered (a fresh registry: another process
+        # that has not registered it) - whatever the name of its reference (user.bytes, zlib.string look like the built-in ones) -
+        # and is not decoded by another codec
+        from dds.structures import FileCodecProtocol as _FCP, ProtocolRef as _PR, DDSException as _DE
+        from dds.structures_utils import SupportedTypeUtils as _STU
+
+        def _named_codec(refname):
+            class C(_FCP):
+                def ref(self):
+                    return _PR(refname)
+
+                def handled_types(self):
+                    return [_STU.from_type(MyType)]
+
+                def serialize_into(self, blob, loc):
+                    with open(str(loc), "wb") as f:
+                        f.write(("Z" + repr(blob.x)[::-1]).encode("utf-8"))
+
+                def deserialize_from(self, loc):
+                    with open(str(loc), "rb") as f:
+                        return MyType(eval(f.read().decode("utf-8")[1:][::-1]))
+            return C()
+        for refname in ("zlib.bytes", "money.string", "mine.pickle", "other.codec"):
+            codec_mod._registry = None
+            ui, ud = os.path.join(tmp, "ui_" + refname), os.path.join(tmp, "ud_" + refname)
+            stu = LocalFileStore(ui, ud)
+            codec_registry().add_file_codec(_named_codec(refname))
+            # the user type goes to the user codec only if no earlier codec claims it: register it on top
+            codec_registry()._handled_types[_STU.from_type(MyType)] = codec_registry()._protocols[_PR(refname)]
+            stu.store_blob("ku", MyType(("u", 7)), None)
+            wrote = json.load(open(os.path.join(ui, "blobs", "ku.meta")))["protocol"]
+            codec_mod._registry = None          # a registry that has never heard of the user codec
+            try:
+                got = LocalFileStore(ui, ud).fetch_blob("ku")
+                outcome = ("returned", repr(got)[:60])
+            except _DE as e:
+                outcome = ("dds_error", e.error_code.name if e.error_code is not None else None)
+            except BaseException as e:
+                outcome = ("exc", type(e).__name__)
+            res.evaluations += 1
+            res.nontrivial("unregistered " + refname)
+            if wrote != refname or outcome != ("dds_error", "PROTOCOL_NOT_FOUND"):
+                res.violations.append({"what": "a blob written with the user codec %r (metadata: %r) is read where the codec is not registered: %s "
+                                               "(expected: refused with PROTOCOL_NOT_FOUND)" % (refname, wrote, outcome),
+                                       "input": {"reference": refname}, "kf": None})
     finally:
         codec_mod._registry = saved_registry
         shutil.rmtree(tmp, ignore_errors=True)
